@@ -22,6 +22,7 @@ EXPLANATION = (
     'Resize copies min(old size, new capacity) frames into an array of the new capacity. C10.R4 (dominance): the token '
     'destructor detaches itself; Attach pushes the very context it builds the token from; Scope attaches '
     'GetCurrent().SetValue(span key, span).')
+EXPLANATION += " C10.R3 also checks every caller of Stack::Resize (which keeps size_-1 frames) to come after the size_ increment. C10.R4: when the token destructor's Detach is conditional on token state, that state is only written behind a successful storage Detach. C10.R5: Context::GetValue returns a stored value only behind key.size() == key_length_ and memcmp(...) == 0 over that length."
 NOT_DECIDED = 'stack behaviour over arbitrary attach/detach sequences and depths; GetValue lookup order beyond the list shape.'
 
 CTX = 'opentelemetry::context::Context'
